@@ -27,4 +27,4 @@ def run(res, only=None):
 
 
 def replay(res, path, only=None):
-    return core.generic_replay(res, path, "hid", env_keys=())
+    return core.replay_dispatch(res, path, "hid", env_keys=())
